@@ -387,9 +387,41 @@ def attempt_timeout_rule(facts, R):
     R.floor("attempt-timeout-configured", n, 6, "client calls with an explicit timeout inside the retry loops")
 
 
+def abandoned_loop_rule(facts, R):
+    """The retry loop owns the clean-up: invalidate_client sits in its Err arm, which runs only when an attempt has returned.  A
+    caller that races the loop's future against a timer (tokio::time::timeout / timeout_at / select) drops it mid-attempt when the
+    timer wins - the dead connection stays cached and every later call reuses it.  So wherever a future containing a retry loop
+    is handed to such a combinator, the `timer won` edge crosses invalidate_client before returning."""
+    from analysis.flow import must_cross, return_points, term_pt
+    RACERS = ("timeout", "timeout_at", "select", "select_biased", "abortable")
+    n = 0
+    for b in facts.bodies.values():
+        if not b.path.startswith(("async_fleet::", "fleet::")):
+            continue
+        bs = None
+        for i, t in b.calls():
+            if t["callee"]["name"] not in RACERS or not any(k in t["callee"]["path"] for k in ("tokio::", "futures", "future::")):
+                continue
+            bs = bs or Sym(b)
+            args = [bs.op(a) for a in t["args"]]
+            if not any(x[0] == "call" and x[1].rsplit("::", 1)[-1] in ("call_json_with_retry", "call_message_with_retry", "call_with_retry") for a in args for x in walk(a)):
+                continue
+            n += 1
+            inv = [term_pt(b, j) for j, u in b.calls() if u["callee"]["name"] == "invalidate_client"]
+            lost = [x for x in sorted(b.live_blocks()) if any(str(f["val"]) == "Err" and any(y[0] == "call" and len(y) > 3 and y[3] == i for y in walk(f["expr"])) for f in facts_at(b, bs, facts, x))]
+            heads = [(x, 0) for x in lost if not any(p in lost for p in b.preds().get(x, []))]
+            w = must_cross(b, heads, return_points(b), inv, after_start=False) if heads and inv else [0]
+            R.check(bool(heads) and bool(inv) and w is None, "dead-client-dropped", b.path, "an abandoned retry loop still drops the cached client",
+                    "%s races the retry loop against %s; when the timer wins the loop's future is dropped mid-attempt and nothing invalidates the cached client: a "
+                    "connection that went silent stays cached, is_connected stays true and every later call reuses it" % (b.path.rsplit("::", 2)[-2 if "{closure" in b.path else -1], t["callee"]["path"].rsplit("::", 2)[-1]),
+                    t.get("span"), "Err(elapsed) edge crosses invalidate_client", path=w if isinstance(w, list) and w != [0] else None)
+    R.note("retry-loop futures handed to a racing combinator: %d" % n)
+
+
 def run(facts, R):
     for path, module in LOOPS:
         analyse_loop(facts, R, path, module)
+    abandoned_loop_rule(facts, R)
     attempt_timeout_rule(facts, R)
     k1 = retryable_table(facts, R, "fleet")
     k2 = retryable_table(facts, R, "async_fleet")
